@@ -378,7 +378,7 @@ func (e *Executor) startExecution(ctx context.Context, t *ast.Task, execute func
 	vhook("dedup", t)
 	e.executionHashesMutex.Lock()
 
-	if otherExecutionCtx, ok := e.executionHashes[h]; ok {
+	if other, ok := e.executionHashes[h]; ok {
 		e.executionHashesMutex.Unlock()
 		e.Logger.VerboseErrf(logger.Magenta, "task: skipping execution of task: %s\n", h)
 
@@ -386,17 +386,25 @@ func (e *Executor) startExecution(ctx context.Context, t *ast.Task, execute func
 		reacquire := e.releaseConcurrencyLimit()
 		defer reacquire()
 
-		<-otherExecutionCtx.Done()
-		return nil
+		<-other.done
+		return other.err
 	}
 
-	ctx, cancel := context.WithCancel(ctx)
-	defer cancel()
-
-	e.executionHashes[h] = ctx
+	this := &execution{done: make(chan struct{})}
+	e.executionHashes[h] = this
 	e.executionHashesMutex.Unlock()
 
-	return execute(ctx)
+	defer close(this.done)
+	this.err = execute(ctx)
+	return this.err
+}
+
+// execution is the single real execution of a deduplicated task (run: once or
+// run: when_changed). done is closed when it has returned; err must only be
+// read after that.
+type execution struct {
+	done chan struct{}
+	err  error
 }
 
 // FindMatchingTasks returns a list of tasks that match the given call. A task
